@@ -23,23 +23,12 @@ def NodeClaim (v : Variant) (Y : Layout) (d : Nat) : Node → List Token → Pro
   | .exec x, ts => ts ≠ [] ∧ ((Y.peek ts).type ∈ execHeads ∧ Y.ind (Y.peek ts) = d) ∧ CExec v Y d x ts
   | .members ps ms gs, ts => Heads Y d classChildTypes ts ∧ CMembers v Y d ps ms gs ts
 
-theorem kwFacts {kw : Token} {r : List Token} (h : kw.type ∈ stmtHeads) : StmtFacts Y (kw :: r) := ⟨by simp, h⟩
-
 theorem exec_hpx {d : Nat} {tx : List Token} (h : (Y.peek tx).type ∈ execHeads ∧ Y.ind (Y.peek tx) = d) :
     (Y.peek tx).type ≠ cTypeEOF ∧ Y.ind (Y.peek tx) = d := ⟨(execHeads_spec _ h.1).1, h.2⟩
 
 theorem linN_claim {d : Nat} {nd : Node} {ts : List Token} (h : LinN Y d nd ts) : NodeClaim v Y d nd ts := by
   induction h with
-  | simple d s ts hs =>
-    cases hs with
-    | exprStmt e ts he hg => exact ⟨head_of_expr he, stmt_expr he hg⟩
-    | declStmt kw asg ids ti e te hk hi hasg he hg =>
-      exact ⟨kwFacts (by rw [hk]; decide), stmt_decl hk hi hasg he hg⟩
-    | retStmt kw e te hk he hg => exact ⟨kwFacts (by rw [hk]; decide), stmt_ret hk he hg⟩
-    | throwStmt kw cls colon bang es tes hk hcls hcol hes hbang hg =>
-      exact ⟨kwFacts (by rw [hk]; decide), stmt_throw hk hcls hcol hes hbang hg⟩
-    | breakStmt kw hk => exact ⟨kwFacts (by rw [hk]; decide), stmt_break hk⟩
-    | continueStmt kw hk => exact ⟨kwFacts (by rw [hk]; decide), stmt_continue hk⟩
+  | simple d s ts hs => exact ⟨(linSimple_claim (v := v) hs).1, (linSimple_claim hs).2.toCStmt⟩
   | declBlockStmt d kw colon ps tp hk hcol hg hind hne hp =>
     exact ⟨kwFacts (by rw [hk]; decide), stmt_declBlock hk hcol hg hind hne hp⟩
   | whileStmt d kw colon c tc b tb hk hc hcol hg hind hbne _ ih =>
@@ -65,6 +54,15 @@ theorem linN_claim {d : Nat} {nd : Node} {ts : List Token} (h : LinN Y d nd ts) 
       blockB_cons ihs.2 ihs.1 hind ihb.2.2.2 ihb.2.1 hsep⟩
     rw [peek_append ihs.1.ne]
     exact ⟨ihs.1.head, hind⟩
+  | blockConsSemi d s ss t1 t2 hs hind _ h2 hsemi ihb =>
+    have hc := linSimple_claim (v := v) hs
+    refine ⟨fun _ => by simp [hc.1.ne], fun _ => ?_, blockA_consSemi hc.2 hc.1 hind ihb.2.2.1 h2 hsemi,
+      blockB_consSemi hc.2 hc.1 hind ihb.2.2.2 h2 hsemi⟩
+    rw [peek_append hc.1.ne]
+    exact ⟨hc.1.head, hind⟩
+  | blockEmpty d semi ss t2 hs hind _ ihb =>
+    exact ⟨fun _ => by simp, fun _ => ⟨by show semi.type ∈ _; rw [hs]; decide, hind⟩, blockA_empty hs hind ihb.2.2.1,
+      blockB_empty hs hind ihb.2.2.2⟩
   | funcStmt d kw name q x tx hk hname hq hg hind _ ih =>
     exact ⟨kwFacts (by rw [hk]; decide), stmt_func hk hname hq hg hind ih.1 (exec_hpx ih.2.1) ih.2.2⟩
   | ctorStmt d kw nw name q x tx hk hnw hname hq hg hind _ ih =>
